@@ -1,20 +1,24 @@
 """C09 — hierarchical key derivation follows BIP32 and commutes with going public.
 
-Every case drives the real pycoin API (network.keys.bip32_seed, subkey, subkey_for_path, subkeys, public_copy, hwif,
-network.parse.bip32/bip49/bip84, ElectrumWallet.subkey) and compares what it returns with vmon/refs/bip32.py
+Every case drives the real pycoin API (network.keys.bip32_seed / bipNN_deserialize, subkey, subkey_for_path, subkeys, children,
+public_copy, hwif / as_text / repr / ku_output / serialize, network.parse.bip32/bip49/bip84 and the generic parse entry points,
+ElectrumWallet.subkey) and compares what it returns with vmon/refs/bip32.py
 (CKDpriv / CKDpub / serialisation written from the BIP text over vmon/refs/ec.py).
 """
 import itertools
+import re
 
 from vmon.probe import shard_rng, observe
 from vmon.refs import bip32 as RB
+from vmon.refs import b58 as B58
 
 PROPERTY = "C09"
 PRELOAD_NETWORK_ORDERS = [["btc", "xtn", "ltc", "bch", "grs", "doge", "dash", "btg"], ["btg", "grs", "bch", "doge", "ltc", "xtn", "btc"]]
 LEVEL = "exploration"
 TECHNIQUE = ("differential runtime monitor of BIP32/49/84 nodes vs a from-the-BIP reference at every derivation step; "
              "public/private commutation, text round trip per network (every documented parse entry point), path spellings, "
-             "sub-key cache histories vs fresh nodes with read-only queries / failing calls interleaved on every reused node")
+             "sub-key cache histories vs fresh nodes with read-only queries / failing calls interleaved on every reused node; "
+             "every spelling that yields the text form (hwif, as_text, repr/str, ku_output*, serialize) on every flavour and origin of node")
 RULE = ("cases: (network, seed of 16..64 bytes incl. the BIP vectors, path of depth 0..8 (one of depth 255) with indices "
         "biased to 0,1,255,256,2^16,2^24-1,2^24,2^31-1, hardened or not, hardened steps spelled H/p/') -> all fields and both "
         "texts vs the reference, step-wise vs path derivation, commutation with public_copy on the non-hardened tail, "
@@ -29,7 +33,14 @@ RULE = ("cases: (network, seed of 16..64 bytes incl. the BIP vectors, path of de
         "on both sides of the commutation, on the shared node between calls, on each child handed out (it stays cached) "
         "and on the late public copy; children(max_level, start_index, include_hardened) as a derivation entry point; "
         "child texts re-parsed through parse.<bip>, <bip>_prv/_pub, hierarchical_key, secret, parse(text); Electrum "
-        "wallets private vs public. Distinct by (kind, network, seed, path / fields / call list / queries); non-trivial when at least "
+        "wallets private vs public; kind 'text': (flavour bip32/49/84 weighted to 49/84, network defining it, seed, path of depth 0..6, "
+        "origin of the root: bip32_seed / 'H:<hex>' seed text / <bip>_deserialize / each parse entry point, way of deriving: "
+        "subkey_for_path / subkey steps / subkeys() / children()) -> on the node, the root, its public_copy, the '.pub' node, the "
+        "as_private=False child of the private parent and the child of a public-only ancestor read from text or blob: ALL text "
+        "spellings (hwif / as_text with as_private default, keyword, positional, True, False; repr, str, format; ku_output, "
+        "ku_output_for_hk; serialize default / True / False) in a shuffled order with repeats as one history, then both texts "
+        "read back through parse.<bip>, <bip>_prv/_pub, hierarchical_key, secret, parse(text) and <bip>_deserialize: same class, "
+        "same fields, same texts by the spellings again, and a further child of the node read back. Distinct by (kind, network, seed, path / fields / call list / queries); non-trivial when at least "
         "one child derivation or one parse is involved (depth-0 master-only cases are trivial).")
 ASSUMPTIONS = [
     "vmon/refs/bip32.py is correct (self-tested on every run: BIP32 test vectors 1 and 2, every chain, both texts; "
@@ -50,6 +61,14 @@ ASSUMPTIONS = [
     "are yielded is not judged; a public-only node may raise once a hardened child is due",
     "parse.hierarchical_key / parse.secret / parse(text) / parse.<bip>_prv / _pub are documented ways to read an extended "
     "key text, so the round trip is demanded through them as well",
+    "'the text form' of a node is what any public spelling hands out: hwif(as_private) and its documented alias as_text(as_private) "
+    "must return exactly the reference text of the node's flavour (the signature default as_private=False means the public text); "
+    "repr / str / ku_output* are free in format, but every Base58Check string carrying 78 bytes that they embed must be one of this "
+    "node's own texts (ku 'public_version' = the public one); serialize(as_private) = the 74 reference bytes (default: either half "
+    "of a private node is tolerated); asking a public-only node for its private form is not judged",
+    "a round trip preserves the variant: the node read back is of the same class (type identity) as the node that produced the text "
+    "(its public_copy for the public text), since the variant decides the text prefix and the address type",
+    "keys.<bip>_deserialize(4 version bytes + 74 bytes) is called with the version bytes of the flavour only",
 ]
 EXPLANATION = ("held = every observed secret exponent, public pair, chain code, depth, parent fingerprint, child number and "
                "xprv/xpub (yprv/zprv...) text equalled the reference; public derivation equalled the public half of private "
@@ -83,6 +102,8 @@ def plan(tier, seed):
     for i in range(2 if q else 8):
         shards.append({"kind": "cache", "n": 120 if q else 1500, "label": "cache%d" % i})
     shards.append({"kind": "electrum", "n": 300 if q else 6000, "label": "electrum"})
+    for i in range(2 if q else 6):       # appended last: the rng streams of the shards above do not move
+        shards.append({"kind": "text", "n": 160 if q else 2500, "label": "text%d" % i})
     return shards
 
 
@@ -452,7 +473,7 @@ def chk_synthetic(case, rec, ctx):
         ref = ref.neuter()
     pre, pre_pub, via = case.get("pre", []), case.get("pre_pub", []), case.get("via")
     rec.case(("syn", code, bip, private, k, case["chain_code"], case["depth"], case["pfp"], case["child"],
-              tuple(pre), tuple(pre_pub), via))
+              tuple(pre), tuple(pre_pub), via, tuple(case.get("text_ops", ()))))
 
     def V(mech, observed, expected):
         rec.violation(mech, case, observed, expected)
@@ -470,6 +491,9 @@ def chk_synthetic(case, rec, ctx):
         exp = RB.to_text(ref, prv if want_private else pub, want_private)
         if st != "ok" or t != exp:
             return V("%s.hwif_mismatch.%s" % (bip, "prv" if want_private else "pub"), t, exp)
+    # every other spelling of the text form on the same (boundary-field) node
+    if case.get("text_ops") and not judge_text_ops(node, case["text_ops"], ref, private, (prv, pub), bip, rec, V, "synthetic node"):
+        return
     # the flavour and every field survive derivation and going public; children checked against the reference
     if case["depth"] >= 255:
         return
@@ -547,6 +571,7 @@ def run_nets(spec, rec, ctx):
                     "children": [gen_index(rng) for _ in range(2)]}
             if k % 4 >= 2:      # half of the cases: queries before deriving, another documented parse entry point
                 case.update({"pre": gen_queries(rng), "pre_pub": gen_queries(rng), "via": rng.choice(VIAS)})
+                case["text_ops"] = rng.sample(TEXT_OP_NAMES, len(TEXT_OP_NAMES))
             chk_synthetic(case, rec, ctx)
             if k == 0 and idx < 3:
                 rec.sample({"kind": "nets", "net": code, "bip": bip, "depth": depth, "child": child})
@@ -895,9 +920,317 @@ def run_electrum(spec, rec, ctx):
 
 
 # ---------------------------------------------------------------------------------------------------------
+# kind "text": EVERY public way of obtaining the text form of an extended key (hwif / its alias as_text with each
+# spelling of as_private, the texts embedded in repr / str and in the ku_output helpers, the 74-byte serialize() blob),
+# on every flavour (bip32/49/84) and every origin of node (seed, <bip>_deserialize, each parse entry point, children by
+# path / steps / subkeys() / children(), public copies, '.pub', public child of a private parent, child of a public-only
+# parent that was itself read from text, nodes read back from any of those texts), as one history per node (all
+# spellings in a shuffled order with repeats).  Each text must be the reference text of that flavour and must come
+# back, through every documented parse entry point for it, as a node of the same class with every field.
+
+_B58RUN = re.compile("[%s]{100,120}" % B58.ALPHABET)
+
+
+def embedded_texts(s):
+    """extended-key texts (Base58Check strings carrying 78 bytes) occurring in string s"""
+    out = []
+    for m in _B58RUN.findall(s):
+        raw = B58.decode_check(m)
+        if raw is not None and len(raw) == 78:
+            out.append(m)
+    return out
+
+
+def _ku_items(gen):
+    """what a ku_output* generator yields, up to the first exception (the address part may not exist on a network)"""
+    out = []
+    it = iter(gen)
+    while True:
+        try:
+            out.append(next(it))
+        except StopIteration:
+            return out
+        except Exception:
+            return out
+
+
+# name -> (family, how judged, as_private the spelling asks for (None: embedded / default), call)
+TEXT_OPS = {
+    "hwif": ("hwif", "exact", False, lambda n: n.hwif()),
+    "hwif_kw_pub": ("hwif", "exact", False, lambda n: n.hwif(as_private=False)),
+    "hwif_kw_prv": ("hwif", "exact", True, lambda n: n.hwif(as_private=True)),
+    "hwif_pos_pub": ("hwif", "exact", False, lambda n: n.hwif(False)),
+    "hwif_pos_prv": ("hwif", "exact", True, lambda n: n.hwif(True)),
+    "as_text": ("as_text", "exact", False, lambda n: n.as_text()),
+    "as_text_kw_pub": ("as_text", "exact", False, lambda n: n.as_text(as_private=False)),
+    "as_text_kw_prv": ("as_text", "exact", True, lambda n: n.as_text(as_private=True)),
+    "as_text_pos_pub": ("as_text", "exact", False, lambda n: n.as_text(False)),
+    "as_text_pos_prv": ("as_text", "exact", True, lambda n: n.as_text(True)),
+    "repr": ("repr", "embed", None, lambda n: repr(n)),
+    "str": ("str", "embed", None, lambda n: str(n)),
+    "format": ("str", "embed", None, lambda n: "{}".format(n)),
+    "ku_output": ("ku_output", "ku", None, lambda n: _ku_items(n.ku_output())),
+    "ku_output_for_hk": ("ku_output", "ku", None, lambda n: _ku_items(n.ku_output_for_hk())),
+    "serialize": ("serialize", "blob", None, lambda n: n.serialize()),
+    "serialize_kw_prv": ("serialize", "blob", True, lambda n: n.serialize(as_private=True)),
+    "serialize_kw_pub": ("serialize", "blob", False, lambda n: n.serialize(as_private=False)),
+    "serialize_pos_pub": ("serialize", "blob", False, lambda n: n.serialize(False)),
+}
+TEXT_OP_NAMES = sorted(TEXT_OPS)
+BACK_OPS = ("hwif", "as_text", "hwif_kw_prv", "as_text_kw_prv", "as_text_pos_pub", "repr", "ku_output_for_hk", "serialize_kw_pub")
+
+
+def judge_text_ops(node, names, ref, private, vers, bip, rec, V, where):
+    """Issue the named spellings on `node` in order.  ref: reference node; private: does the node hold the secret;
+    vers = (prv version, pub version) of the flavour.  -> False after reporting the first disagreement."""
+    pub_text = RB.to_text(ref, vers[1], False)
+    prv_text = RB.to_text(ref, vers[0], True) if private else None
+    own = [t for t in (pub_text, prv_text) if t]
+    for pos, name in enumerate(names):
+        op = TEXT_OPS.get(name)
+        if op is None:
+            continue
+        family, how, want_private, fn = op
+        rec.ev("text." + family)
+        st, got = observe(fn, node)
+        if want_private and not private:
+            continue          # a public-only node asked for its private form: whatever happens is not judged
+        what = {"on": where, "op": name, "position": pos}
+        if st != "ok":
+            V("%s.text.%s_raises" % (bip, family), dict(what, exc=got), "a value")
+            return False
+        if how == "exact":
+            exp = prv_text if want_private else pub_text
+            if got != exp:
+                V("%s.text.%s_mismatch.%s" % (bip, family, "prv" if want_private else "pub"), dict(what, got=got), exp)
+                return False
+        elif how == "embed":
+            if not isinstance(got, str):
+                V("%s.text.%s_not_a_string" % (bip, family), dict(what, got=repr(got)[:80]), "a string")
+                return False
+            for t in embedded_texts(got):
+                if t not in own:
+                    V("%s.text.%s_embeds_other_key" % (bip, family), dict(what, got=got), own)
+                    return False
+        elif how == "ku":
+            for item in got:
+                if not isinstance(item, tuple) or len(item) < 2 or not isinstance(item[1], str):
+                    continue
+                if item[0] == "public_version" and item[1] != pub_text:
+                    V("%s.text.ku_output_mismatch.public_version" % bip, dict(what, got=item[1]), pub_text)
+                    return False
+                if item[0] == "wallet_key" and item[1] not in own:
+                    V("%s.text.ku_output_mismatch.wallet_key" % bip, dict(what, got=item[1]), own)
+                    return False
+                for t in embedded_texts(item[1]):
+                    if t not in own:
+                        V("%s.text.ku_output_embeds_other_key" % bip, dict(what, item=item[0], got=item[1]), own)
+                        return False
+        else:
+            allowed = [RB.payload(ref, False)] + ([RB.payload(ref, True)] if private else [])
+            if want_private is not None:
+                allowed = [RB.payload(ref, want_private)]
+            if got not in allowed or not isinstance(got, bytes):
+                V("%s.text.serialize_mismatch" % bip, dict(what, got=got), allowed[-1])
+                return False
+    return True
+
+
+def chk_text(case, rec, ctx):
+    code, bip, seed, path = case["net"], case["bip"], case["seed"], list(case["path"])
+    if code not in ctx.nets or bip not in ctx.prefixes[code]:
+        return
+    net = ctx.nets[code]
+    vers = ctx.prefixes[code][bip]
+    prv, pub = vers
+    ops = list(case["ops"])
+    rec.case(("text", code, bip, seed, tuple(path), case["source"], case.get("root_via"), case["how"], case.get("pub_source"),
+              tuple(ops), tuple(case.get("q", [])), case.get("via"), case.get("child", 0)), nontrivial=True)
+
+    def V(mech, observed, expected):
+        rec.violation(mech, case, observed, expected)
+    try:
+        rnodes = [RB.master(seed)]
+        for i in path:
+            rnodes.append(RB.ckd_priv(rnodes[-1], i))
+    except RB.Invalid:
+        rec.ev("reference_invalid_key")
+        return
+    rm, rn = rnodes[0], rnodes[-1]
+    deser = getattr(net.keys, "%s_deserialize" % bip)
+
+    # the root, by origin
+    source = case["source"]
+    if source == "seed" and bip == "bip32":
+        rec.ev("from_master_secret")
+        st, root = observe(net.keys.bip32_seed, seed)
+    elif source == "seed_text" and bip == "bip32":      # "H:<hex>": the documented text form of a master secret
+        entry = {"hierarchical_key": net.parse.hierarchical_key, "secret": net.parse.secret, "call": net.parse}.get(
+            case.get("root_via"), net.parse.bip32_seed)
+        rec.ev("parse.bip32_seed")
+        st, root = observe(entry, "H:" + seed.hex())
+    elif source == "deserialize":
+        rec.ev("deserialize")
+        st, root = observe(deser, prv + RB.payload(rm, True))
+    else:
+        st, root = node_from_text(ctx, code, bip, RB.to_text(rm, prv, True), rec, case.get("root_via"), True)
+    if st != "ok" or root is None or not hasattr(root, "tree_depth"):
+        return V("%s.text.root_failed" % bip, {"source": source, "via": case.get("root_via"), "got": root}, "a node")
+    do_queries(root, case.get("q", []), rec, ctx)
+
+    # the node, by way of derivation
+    how = case["how"] if path else "path"
+    ptext = RB.path_text(path, case.get("marks", "H"))
+    if how == "steps":
+        st, node = "ok", root
+        for i in path:
+            rec.ev("subkey")
+            st, node = observe(node.subkey, i & (HARD - 1), i >= HARD)
+            if st != "ok":
+                break
+    elif how == "subkeys":
+        rec.ev("subkeys")
+        st, node = observe(lambda: list(root.subkeys(ptext))[0])
+    elif how == "children":
+        rec.ev("children")
+        i = path[-1]
+
+        def via_children():
+            parent = root.subkey_for_path(RB.path_text(path[:-1]))
+            for ch in parent.children(max_level=0, start_index=i & (HARD - 1), include_hardened=i >= HARD):
+                if ch.child_index() == i:
+                    return ch
+            raise LookupError("children() did not yield child number %d" % i)
+        st, node = observe(via_children)
+    else:
+        rec.ev("subkey_for_path")
+        st, node = observe(root.subkey_for_path, ptext)
+    if st != "ok":
+        return V("%s.text.derive_raises" % bip, {"how": how, "exc": node}, "a node")
+
+    sites = [("node", node, rn, True)]
+    if path:
+        sites.append(("root", root, rm, True))
+    rec.ev("public_copy")
+    st, pc = observe(node.public_copy)
+    if st != "ok":
+        return V("%s.public_copy_raises" % bip, pc, "a node")
+    sites.append(("public_copy", pc, rn, False))
+    rec.ev("subkey_for_path")
+    st, dp = observe(root.subkey_for_path, ptext + ".pub")
+    if st != "ok":
+        return V("%s.text.derive_raises" % bip, {"how": ".pub", "exc": dp}, "a node")
+    sites.append(("dot_pub", dp, rn, False))
+    if path:
+        i = path[-1]
+        rec.ev("subkey")
+        st, ap = observe(lambda: root.subkey_for_path(RB.path_text(path[:-1])).subkey(i & (HARD - 1), i >= HARD, as_private=False))
+        if st != "ok":
+            return V("%s.text.derive_raises" % bip, {"how": "as_private=False", "exc": ap}, "a node")
+        sites.append(("public_child_of_private", ap, rn, False))
+        # a public-only ancestor that is itself read from text / from a blob, then the non-hardened tail
+        cut = len(path)
+        while cut > 0 and path[cut - 1] < HARD:
+            cut -= 1
+        if cut < len(path):
+            if case.get("pub_source") == "deserialize":
+                rec.ev("deserialize")
+                st, anc = observe(deser, pub + RB.payload(rnodes[cut], False))
+            else:
+                st, anc = node_from_text(ctx, code, bip, RB.to_text(rnodes[cut], pub, False), rec, case.get("pub_source"), False)
+            if st != "ok" or anc is None:
+                return V("%s.text.root_failed" % bip, {"source": case.get("pub_source"), "public": True, "got": anc}, "a node")
+            rec.ev("subkey_for_path")
+            st, fp = observe(anc.subkey_for_path, RB.path_text(path[cut:]))
+            if st != "ok":
+                return V("%s.text.derive_raises" % bip, {"how": "public ancestor", "exc": fp}, "a node")
+            sites.append(("child_of_public_ancestor", fp, rn, False))
+
+    j = case.get("child", 0)
+    for idx, (label, n, ref, private) in enumerate(sites):
+        d = diff_fields(fields_of(n, rec), ref, private)
+        if d:
+            return V("%s.text.site.%s" % (bip, d[0]), {"on": label, "got": d[1]}, d[2])
+        rot = ops[idx % len(ops):] + ops[:idx % len(ops)] if ops else []
+        if not judge_text_ops(n, rot, ref, private, vers, bip, rec, V, label):
+            return
+        # every text of the node comes back as the same kind of node, through every entry point that reads it
+        for want_private in ((True, False) if private else (False,)):
+            text = RB.to_text(ref, prv if want_private else pub, want_private)
+            backs = []
+            for via in VIAS:
+                if via in ("secret", "call") and not want_private:
+                    continue
+                st, back = node_from_text(ctx, code, bip, text, rec, via, want_private)
+                backs.append((via or bip, st, back))
+            rec.ev("deserialize")
+            st, back = observe(deser, (prv if want_private else pub) + RB.payload(ref, want_private))
+            backs.append(("deserialize", st, back))
+            for via, st, back in backs:
+                rec.ev("text.roundtrip")
+                where = {"on": label, "via": via, "private": want_private}
+                if st != "ok" or back is None or not hasattr(back, "tree_depth"):
+                    return V("%s.roundtrip.parse_failed" % bip, dict(where, got=back if st != "ok" else repr(back)[:100]), "a node for %s" % text)
+                expected_class = type(n) if want_private == private else type(pc)
+                if type(back) is not expected_class:
+                    return V("%s.roundtrip.class_changed" % bip, dict(where, got=type(back).__name__), expected_class.__name__)
+                rback = ref if want_private else ref.neuter()
+                d = diff_fields(fields_of(back, rec), rback, want_private)
+                if d:
+                    return V("%s.roundtrip.%s" % (bip, d[0]), dict(where, field=d[0], got=d[1], text=text), d[2])
+                if not judge_text_ops(back, BACK_OPS, rback, want_private, vers, bip, rec, V, "read back from %s via %s" % (label, via)):
+                    return
+                # ... and goes on deriving in its flavour
+                if via == (case.get("via") or bip) and ref.depth < 255:
+                    try:
+                        rch = RB.ckd_priv(ref, j) if want_private else RB.ckd_pub(ref.neuter(), j)
+                    except RB.Invalid:
+                        continue
+                    rec.ev("subkey")
+                    st, ch = observe(back.subkey, j)
+                    if st != "ok":
+                        return V("%s.subkey_raises" % bip, dict(where, exc=ch), "a node")
+                    if not judge_text_ops(ch, BACK_OPS, rch, want_private, vers, bip, rec, V, "child %d of the node read back from %s via %s" % (j, label, via)):
+                        return
+    # the history of spellings changed nothing on the nodes themselves
+    for label, n, ref, private in sites:
+        d = diff_fields(fields_of(n, rec), ref, private)
+        if d:
+            return V("%s.history.node_changed.%s" % (bip, d[0]), {"on": label, "got": d[1]}, d[2])
+
+
+def run_text(spec, rec, ctx):
+    rng = shard_rng(spec["seed"], PROPERTY, spec["tier"], spec["shard"])
+    by_bip = {b: [c for c in ctx.codes if b in ctx.prefixes[c]] for b in BIPS}
+    for k in range(spec["n"]):
+        bip = rng.choice(["bip49", "bip84", "bip49", "bip84", "bip32"])
+        if not by_bip[bip]:
+            bip = "bip32"
+        code = rng.choice(by_bip[bip])
+        if bip == "bip32" and rng.random() < 0.6:
+            code = rng.choice([c for c in ("BTC", "XTN", "LTC") if c in ctx.nets] or by_bip[bip])
+        path = [gen_index(rng) for _ in range(rng.choice([0, 1, 1, 2, 2, 3, 4, 6]))]
+        ops = list(TEXT_OP_NAMES)
+        rng.shuffle(ops)
+        ops += [rng.choice(TEXT_OP_NAMES) for _ in range(rng.choice([0, 3, 8]))]
+        case = {"kind": "text", "net": code, "bip": bip, "seed": gen_seed(rng, k + 1), "path": path,
+                "marks": "".join(rng.choice("Hp'") for _ in range(2)),
+                "source": rng.choice(["parse", "parse", "deserialize"] + (["seed", "seed_text"] if bip == "bip32" else ["deserialize"])),
+                "root_via": rng.choice(VIAS), "how": rng.choice(["path", "path", "steps", "subkeys", "children"]),
+                "pub_source": rng.choice([None, "split", "hierarchical_key", "deserialize"]),
+                "ops": ops, "via": rng.choice(VIAS), "child": rng.choice([0, 1, (1 << 31) - 1, rng.randrange(HARD)])}
+        if k % 2:
+            case["q"] = gen_queries(rng)
+        chk_text(case, rec, ctx)
+        if k < 2:
+            rec.sample({"kind": "text", "net": code, "bip": bip, "path": RB.path_text(path), "source": case["source"],
+                        "how": case["how"], "ops": ops[:6]})
+
+
+# ---------------------------------------------------------------------------------------------------------
 
 KINDS = {"derive": (run_derive, chk_derive), "nets": (run_nets, chk_synthetic), "spell": (run_spell, chk_spell),
-         "cache": (run_cache, chk_cache), "electrum": (run_electrum, chk_electrum)}
+         "cache": (run_cache, chk_cache), "electrum": (run_electrum, chk_electrum), "text": (run_text, chk_text)}
 REQUIRED = {
     "derive": ["from_master_secret", "subkey_for_path", "subkey", "hwif", "public_copy", "commutation", "hardened_from_public",
                "parse.bip32", "accessor.secret", "accessor.public_pair", "accessor.chain_code", "accessor.depth",
@@ -906,6 +1239,9 @@ REQUIRED = {
     "spell": ["spelling", "subkeys"],
     "cache": ["cache_call", "query", "children"],
     "electrum": ["electrum.subkey", "electrum.commutation"],
+    "text": ["text.hwif", "text.as_text", "text.repr", "text.str", "text.ku_output", "text.serialize", "text.roundtrip", "deserialize",
+             "parse.bip32", "parse.bip49", "parse.bip84", "parse.bip49.split", "parse.bip84.split", "parse.hierarchical_key",
+             "parse.secret", "parse.call", "parse.bip32_seed", "public_copy", "subkeys", "children"],
 }
 
 
